@@ -152,7 +152,8 @@ class Strings:
   """Program string constants -> ints, order preserving (so <, MIN, MAX work)."""
 
   def __init__(self, consts=()):
-    self.consts = sorted(set(consts))
+    # 'singleton' is the dummy FROM item the compiler emits for table-free rules
+    self.consts = sorted(set(consts) | {'singleton'})
 
   def id(self, s):
     if s not in self.consts:
